@@ -5,7 +5,7 @@
    unification of chunk-local codes). *)
 From Coq Require Import List ZArith Bool Sorting.Permutation.
 From GL Require Import Lib.Arr Model.Factorize Model.GroupByApi Spec.RowSpec
-  Proofs.FactorizeProofs Proofs.CombineProofs Proofs.MonoProofs Proofs.IndexerProofs Proofs.GenTie Gen.FactorizeGen Proofs.SelectProofs Proofs.ChunkedKeys Proofs.RadixWrap Proofs.FoldKeys.
+  Proofs.FactorizeProofs Proofs.CombineProofs Proofs.MonoProofs Proofs.IndexerProofs Proofs.TieFactorize Gen.FactorizeGen Proofs.SelectProofs Proofs.ChunkedKeys Proofs.RadixWrap Proofs.FoldKeys.
 Import ListNotations.
 Open Scope Z_scope.
 
